@@ -102,6 +102,18 @@ def enc_pad(rng, data, explicit):
     return out
 
 
+def enc_stored_zeros(rng, data):
+    """The same matrix over the same vector set, with explicit 0.0 entries stored at unused columns."""
+    out = copy.deepcopy(data)
+    for row in out["rows"]:
+        used = {c for c, _ in row}
+        for c in range(out["N"]):
+            if c not in used and rng.random() < 0.6:
+                row.append([c, 0.0])
+        row.sort()
+    return out
+
+
 def enc_perm(rng, data):
     out = copy.deepcopy(data)
     N = data["N"]
@@ -198,6 +210,9 @@ def sc_wass_sparse(rng, metric, sid):
     calls.append({"name": "pad", "data": enc_pad(rng, base, False), "memory_size": rng.choice(MEMS), "cmp": "base"})
     calls.append({"name": "pad0", "data": enc_pad(rng, base, True), "memory_size": rng.choice(MEMS), "cmp": "base"})
     calls.append({"name": "perm", "data": enc_perm(rng, base), "memory_size": rng.choice(MEMS), "cmp": "base"})
+    # the measure decides the FITTED model too (default reference included): fit on another storage of the same matrix
+    calls.append({"name": "refit:stored-zeros", "data": enc_stored_zeros(rng, base), "refit": True, "cmp": "fit"})
+    calls.append({"name": "refit:scale", "data": enc_scale(rng, base), "refit": True, "cmp": "fit"})
     calls.append({"name": "split", "data": enc_split(rng, base), "memory_size": rng.choice(MEMS), "cmp": "base"})
     calls.append({"name": "split01", "data": enc_split(rng, base, True), "memory_size": rng.choice(MEMS), "cmp": "base"})
     combo = enc_perm(rng, enc_split(rng, enc_pad(rng, enc_scale(rng, base), True)))
